@@ -870,6 +870,12 @@ func (schema *Schema) IsEmpty() bool {
 		schema.MinProps != 0 || schema.MaxProps != nil {
 		return false
 	}
+	// `not`, a `oneOf` of several members and applicators whose sub-schema still rejects null
+	// constrain values even when every sub-schema is itself empty.
+	if schema.Not != nil || len(schema.OneOf) > 1 || schema.Items != nil ||
+		len(schema.Properties) != 0 || schema.AdditionalProperties.Schema != nil {
+		return false
+	}
 	if n := schema.Not; n != nil && n.Value != nil && !n.Value.IsEmpty() {
 		return false
 	}
